@@ -19,7 +19,7 @@ from typing import Any
 
 from vf import rt
 
-PVALS = [0.3, -0.75, 1e-05, 2.5, 1234567.125, -3e-07, 0.1 + 0.2, 1e+22]
+PVALS = [0.3141592653589793, -0.7853981633974483, 1.2345678e-05, 2.5, 1234567.125, -3.3333e-07, 0.1 + 0.2, 1e+22]
 
 _CAT: dict[str, list] = {}
 
@@ -171,7 +171,7 @@ def signature(op: Any, W: int) -> list[tuple[int, tuple]]:
     if isinstance(g, BarrierPlaceholder):
         return [(q, ('barrier', loc)) for q in loc]
     u = op.get_unitary()
-    return [(q, ('u', loc, u)) for q in loc]
+    return [(q, ('u', loc, u, type(g).__name__, tuple(float(p) for p in op.params))) for q in loc]
 
 
 def same_entry(a: tuple, b: tuple) -> bool:
@@ -180,11 +180,16 @@ def same_entry(a: tuple, b: tuple) -> bool:
         return False
     if a[0] != 'u':
         return a == b
-    return a[1] == b[1] and a[2].shape == b[2].shape and bool(np.allclose(np.asarray(a[2]), np.asarray(b[2]), atol=1e-9))
+    if not (a[1] == b[1] and a[2].shape == b[2].shape and bool(np.allclose(np.asarray(a[2]), np.asarray(b[2]), atol=1e-9))):
+        return False
+    if a[3] == b[3] and len(a[4]) == len(b[4]):      # same gate class: parameters to printing precision
+        return all(abs(x - y) <= 1e-12 * (1 + abs(x)) for x, y in zip(a[4], b[4]))
+    return True
 
 
 def round_trip(W: int, ops: list[Any]) -> tuple[str, str]:
     """-> ('ok', '') | (fingerprint-kind, detail)"""
+    import numpy as np
     from bqskit.ir.circuit import Circuit
     from bqskit.ir.lang.qasm2 import OPENQASM2Language
     circ = Circuit(W)
@@ -217,10 +222,15 @@ def round_trip(W: int, ops: list[Any]) -> tuple[str, str]:
                 q, len(tl_a[q]), len(tl_b[q]), text, back)
         for a, b in zip(tl_a[q], tl_b[q]):
             if not same_entry(a, b):
-                kind = 'location' if a[0] == b[0] and a[1] != b[1] and a[0] in ('u', 'barrier') else \
-                    ('unitary' if a[0] == b[0] == 'u' else 'kind')
+                if a[0] == b[0] and a[1] != b[1] and a[0] in ('u', 'barrier'):
+                    kind = 'location'
+                elif a[0] == b[0] == 'u':
+                    same_u = a[2].shape == b[2].shape and bool(np.allclose(np.asarray(a[2]), np.asarray(b[2]), atol=1e-9))
+                    kind = 'parameters' if same_u else 'unitary'
+                else:
+                    kind = 'kind'
                 return kind, 'qubit %d: %r became %r | text: %r' % (
-                    q, (a[0], a[1]), (b[0], b[1]), text)
+                    q, (a[0], a[1]) + tuple(a[3:]), (b[0], b[1]) + tuple(b[3:]), text)
     return 'ok', text
 
 
@@ -234,10 +244,9 @@ def s_entry(g0: int, g1: int, g2: int, l0: int, l1: int, l2: int) -> bool:
     labels = []
     for k, (gx, lx) in enumerate(zip([g0, g1, g2][:nops], [l0, l1, l2][:nops])):
         pool = rt.nt(select, cat, S['pools'][k], W)
-        lo, hi = S.get('range%d' % k, [0, len(pool) - 1])
-        hi = min(hi, len(pool) - 1)
+        i, n = S.get('slice%d' % k, [0, 1])          # the i-th of n equal slices of the pool
+        lo, hi = (len(pool) * i) // n, (len(pool) * (i + 1)) // n - 1
         if hi < lo:
-            rt.reach()           # this slice of the catalogue is empty (catalogue shorter than the bound)
             return True
         gi = rt.P(gx, lo, hi)
         label, g = cat[pool[gi]]
